@@ -164,6 +164,22 @@ fn tournament_config(n: usize, k: usize, pname: &str, vals: &[i64], draws: u64, 
     let mut subset_applicable = k >= 2;
     let max_val = *vals.iter().max().unwrap();
     let cfg = format!("n={n} k={k} {pname}");
+    // exact per-draw facts also under hostile streams (all zeros / all ones / alternating ...)
+    for mut hr in TraceRng::hostile_variants((n * 131 + k) as u64) {
+        for _ in 0..4 {
+            take_cmp_log();
+            let r = catch(|| sel.select(&pop, &mut hr).map(|w| w.id as usize));
+            take_cmp_log();
+            rep.eval();
+            match r {
+                Ok(Ok(w)) if vals.iter().filter(|v| **v <= vals[w]).count() >= k && (k < n || vals[w] == max_val) => {}
+                other => {
+                    rep.violation("C07/Tournament/extreme-stream", || json!({"config": cfg, "values": vals, "observed": format!("{other:?}"), "meaning": "under an extreme random stream the winner is among the k-1 worst, not a best member for k = n, or selection failed"}));
+                    return;
+                }
+            }
+        }
+    }
     for d in 0..draws {
         take_cmp_log();
         let r = catch(|| sel.select(&pop, &mut rng).map(|w| w.id as usize));
